@@ -126,6 +126,60 @@ def run_codec(cfg, out):
     return n
 
 
+def open_connection(run, what):
+    """opening a connection is the first send of every session: connect() queues the client hello like any other protocol message,
+    and the statement's 'for every configured MTU ... whatever is queued' covers it - the hello is on the wire in a datagram of at
+    most MTU-28 bytes, or the packer has lost/stranded a queued message.  Returns the connected client, or None after reporting why
+    the world could not be opened (the caller collects the run and moves on instead of dying with the evidence)."""
+    w, P, cnt = run.world, run.C.Packet, run.c
+    c = w.add_client()
+    mtu = P.MTU
+    cnt.inc("handshakes_judged")
+    if mtu < 1500:
+        cnt.inc("handshakes_judged_below_the_default_mtu")
+    try:
+        return w.connect_client(c)
+    except L.Inconclusive:
+        pass
+    # ten connect() calls without a session.  Once more on a network that loses nothing, as an application would, watching the
+    # client's send queue and its socket from the moment connect() returns
+    w.net.heal()
+    if c.udp.conn is not None:
+        c.udp.forceDisconnect()
+        c.sock_open = True
+        c.sock.fifo.clear()
+    wire0 = cnt.get("wire_c2s", 0)
+    c.connect()
+    conn = c.udp.conn
+    queued0 = [(str(m.type), len(m.payload)) for m in conn.outgoing_messages]
+    still, ticks = list(queued0), 0
+    for ticks in range(1, 241):
+        w.step()
+        if c.udp.conn is not conn:
+            break                    # the client gave up (hello timeout) and dropped the connection object
+        if getattr(conn.status, "value", 0) == 2 and c.addr in w.ctxt.connections:
+            cnt.inc("handshakes_completed_only_on_a_clean_network")
+            return c
+        still = [(str(m.type), len(m.payload)) for m in conn.outgoing_messages]
+    sent = cnt.get("wire_c2s", 0) - wire0
+    cap = mtu - 28 - 20 - 16 - 2
+    case = {"mtu": mtu, "world": what}
+    if sent == 0 and still:
+        run.report("C09", "handshake-message-never-leaves-send-queue",
+                   "MTU %d, clean network: connect() queued %s; %d client frames (%.1f s) later the client has not handed a single datagram to "
+                   "its socket and %s is still in the send queue (a datagram carries up to %d payload bytes at this MTU): the connection "
+                   "can not be opened" % (mtu, queued0, ticks, ticks * w.dt, still, cap), case)
+    elif sent == 0:
+        run.report("C09", "handshake-message-lost" if queued0 else "handshake-message-never-queued",
+                   "MTU %d, clean network: connect() queued %s; %d client frames later no datagram was handed to the socket and the send "
+                   "queue is empty: the connection can not be opened" % (mtu, queued0, ticks), case)
+    elif not run.report.of("C09"):
+        # datagrams flow and nothing about them breaks this property: why the session is not established is not C09's to say
+        raise L.Inconclusive("honest handshake did not complete at MTU %d although the client put %d datagrams on the wire" % (mtu, sent))
+    cnt.inc("worlds_that_could_not_be_opened")
+    return None
+
+
 def run_packing(cfg, out):
     total = 0
     for mtu in cfg["mtus"]:
@@ -137,7 +191,10 @@ def run_packing(cfg, out):
             w = run.world
             P = run.C.Packet
             w.net.set(c2s=L.Policy(loss=0.05, dup=0.05, delay=(0.003, 0.02)), s2c=L.Policy(loss=0.05, dup=0.05, delay=(0.003, 0.02)))
-            c = w.connect_client()
+            c = open_connection(run, "packing")
+            if c is None:
+                c05.collect(run, out, PROPS, {"kind": "packing", "mtu": mtu, "opened_at_mtu": pre_mtu})
+                continue
             import mpgameserver.client as _K
             if r.random() < 0.5:
                 # select() reports the client's socket as not writable now and then (send buffer full)
@@ -307,7 +364,10 @@ def run_interleaved(cfg, out):
     with T.Run(r, mtu=1500, dt=1 / 60) as run:
         w = run.world
         w.net.heal(0.004)
-        c = w.connect_client()
+        c = open_connection(run, "interleaved")
+        if c is None:
+            c05.collect(run, out, PROPS, {"kind": "interleaved"})
+            return total
         mon = sys.monitoring
         TOOL = 3
         code = run.tap._orig["build"].__code__
@@ -380,7 +440,7 @@ def finish(tier, seed, results):
     inconclusive = []
     need(m["counters"], ["codec_packets", "codec_form_gcm", "codec_form_crc", "codec_roundtrips_real", "codec_roundtrips_independent",
                          "mtus_run", "wire_checked", "maximality_checked", "roundtrips_checked", "tiny_floods", "resend_plus_fresh_floods", "mtu_changes_on_open_connections", "non_bytes_payload_refused", "interleaved_sends_injected", "worlds_with_unwritable_socket", "worlds_with_timeout_below_resend_interval", "conservation_checked",
-                         "packets_built"], inconclusive)
+                         "packets_built", "handshakes_judged", "handshakes_judged_below_the_default_mtu"], inconclusive)
     cov = {
         "evaluations": m["evaluations"],
         "distinct_nontrivial": m["distinct_nontrivial"],
